@@ -403,6 +403,15 @@ def _draw_pres(rng, c):
     p["gstate"] = rng.choice([None, rng.randrange(2 ** 31)])
     p["thr_type"] = rng.choice(["float", "float", "npfloat64", "int" if c.get("thr") == "1.0" else "npfloat64"])
     p["iter_type"] = rng.choice(["int", "int", "npint"])
+    # unsigned feature columns (ranks, counts, charges of a Parquet / typed table): negating such a column wraps, so
+    # every place that handles 'lower is better' by a sign flip shows here.  Drawn last: the fields above keep their
+    # values for a given seed.  Only for tables whose canonical values are all representable.
+    if rng.random() < 0.3 and tuple(vm) == (0, 0) and c.get("cols"):
+        vals = [v for col in c["cols"] for v in col]
+        if vals and all(float(v) == int(v) and 0 <= v for v in vals):
+            fits = [dt for dt, top in (("uint8", 2 ** 8), ("uint16", 2 ** 16), ("uint32", 2 ** 32), ("uint64", 2 ** 53)) if max(vals) < top]
+            if fits:
+                p["fdtype"] = rng.choice(fits)
     return p
 
 
@@ -833,7 +842,7 @@ def _run_fit(c):
         names2, cols2, n2 = second_table(c)
         pres2 = dict(pres, index=(pres["index"] + 2) % 4, fcols={"list": "tuple", "tuple": "none", "none": "index", "index": "list"}[pres["fcols"]],
                      dfperm=None if pres["dfperm"] is None else pres["dfperm"] + 1,
-                     fdtype=pres["fdtype"] if pres["fdtype"] in ("int64", "int32", "float32") else {"float64": "mixed", "mixed": "float64"}[pres["fdtype"]])
+                     fdtype=pres["fdtype"] if pres["fdtype"] in ("int64", "int32", "float32") else {"float64": "mixed", "mixed": "float64"}.get(pres["fdtype"], "int64"))
         ds2 = _dataset(names2, cols2, [c["targets"][r_] for r_ in c["prow"]], False, pres2,
                        names2.index("id") if "id" in names2 else None)
         fits_before = getattr(m.scaler, "fits_", None)
